@@ -1907,6 +1907,23 @@ func (fv *FuncVerifier) argExprFor(fi *FuncInfo, info *types.Info, call *ast.Cal
 	return nil
 }
 
+// pureExt / pureExtN: the uninterpreted function that stands for result i of the pure external function `full` applied
+// to (receiver, arguments) - the same symbol callUnknown uses, so extern handlers can speak about other observers.
+func (fv *FuncVerifier) pureExt(full string, rs Sort, all ...Term) Term { return fv.pureExtN(full, 0, rs, all...) }
+
+func (fv *FuncVerifier) pureExtN(full string, i int, rs Sort, all ...Term) Term {
+	var sorts []Sort
+	for _, a := range all {
+		sorts = append(sorts, a.Sort)
+	}
+	name := fmt.Sprintf("ext_%s_%d", sanitize(full), i)
+	for _, s := range sorts {
+		name += "_" + sanitize(string(s))[:min(6, len(sanitize(string(s))))]
+	}
+	fv.w.UFun(name, sorts, rs, "")
+	return App(rs, name, all...)
+}
+
 // callUnknown handles functions outside /repo without an extern handler.
 func (fv *FuncVerifier) callUnknown(st *State, env *Env, call *ast.CallExpr, fn *types.Func, sig *types.Signature, recv Term, hasRecv bool, args []Term) []Term {
 	full := fn.FullName()
@@ -1993,12 +2010,7 @@ func (fv *FuncVerifier) callUnknown(st *State, env *Env, call *ast.CallExpr, fn 
 		var res []Term
 		for i := 0; i < sig.Results().Len(); i++ {
 			rs := fv.sortOf(sig.Results().At(i).Type())
-			name := fmt.Sprintf("ext_%s_%d", sanitize(full), i)
-			for _, s := range sorts {
-				name += "_" + sanitize(string(s))[:min(6, len(sanitize(string(s))))]
-			}
-			fv.w.UFun(name, sorts, rs, "")
-			r := App(rs, name, all...)
+			r := fv.pureExtN(full, i, rs, all...)
 			if !strings.Contains(r.S, "$") {
 				st.Assume(fv.typeInv(r, sig.Results().At(i).Type()))
 			}
